@@ -572,3 +572,51 @@ Fixpoint load (ns : pystr -> option term) (fuel : nat) (overwrite : bool) (d : l
       | _, _ => None
       end
   end.
+
+(* ---------------------------------------- histories on one target manager *)
+
+(* a manager: its label -> container map and its ExprTasks (dict order) *)
+Record mstate := { ms_containers : list (pystr * term); ms_tasks : list taskdef }.
+
+(* namespace used by load(): the containers of the manager *)
+Definition ns_of (cs : list (pystr * term)) : pystr -> option term := fun l => alookup l cs.
+
+(* namespace used by copy_expr_from(): a COPY of the containers, with the
+   rebound labels overriding *)
+Definition ns_with (cs binds : list (pystr * term)) : pystr -> option term :=
+  fun l => match alookup l binds with Some t => Some t | None => alookup l cs end.
+
+Inductive mop :=
+| MLoad (overwrite : bool) (src : list taskdef)                                (* mgr.load(src.dump(), overwrite=...) *)
+| MCopy (overwrite : bool) (sel : list taskdef) (binds : list (pystr * term))  (* mgr.copy_expr_from(src, name, bindings, overwrite) *)
+| MAssign (target : term) (value : option term).                               (* ref = expression / plain value *)
+
+(* every operation returns a new state whose container map is the old one *)
+Definition mstep (fuel : nat) (st : mstate) (op : mop) : option mstate :=
+  let cs := ms_containers st in
+  match op with
+  | MLoad ow src =>
+      match load (ns_of cs) fuel ow (dump src) (ms_tasks st) with
+      | Some ts => Some {| ms_containers := cs; ms_tasks := ts |}
+      | None => None
+      end
+  | MCopy ow sel binds =>
+      match load (ns_with cs binds) fuel ow (dump sel) (ms_tasks st) with
+      | Some ts => Some {| ms_containers := cs; ms_tasks := ts |}
+      | None => None
+      end
+  | MAssign t v =>
+      Some {| ms_containers := cs;
+              ms_tasks := unregister (ms_tasks st) t ++ (match v with Some e => [(t, e)] | None => [] end) |}
+  end.
+
+(* the states after every operation *)
+Fixpoint mrun (fuel : nat) (st : mstate) (ops : list mop) : option (list mstate) :=
+  match ops with
+  | [] => Some []
+  | op :: r =>
+      match mstep fuel st op with
+      | Some st' => match mrun fuel st' r with Some l => Some (st' :: l) | None => None end
+      | None => None
+      end
+  end.
